@@ -6,7 +6,8 @@ set -u
 ID=$1; TIER=$2; shift 2
 S=$(mktemp -d /tmp/vmut.XXXXXX)
 mkdir -p $S/repo
-cp -a /repo/src /repo/configure.ac $S/repo/ 2>/dev/null
+SRC=${MUT_SRC:-/repo}   # MUT_SRC: a pristine copy to start from while /repo itself is being used by a seeded batch
+cp -a $SRC/src $SRC/configure.ac $S/repo/ 2>/dev/null
 find $S/repo -name '*.o' -o -name '*.lo' -o -name '*.la' -o -name '.libs' -o -name '.deps' | xargs rm -rf
 for m in "$@"; do
   case "$m" in
@@ -14,7 +15,7 @@ for m in "$@"; do
     *) (cd $S/repo && patch -s -p1 < "$m") || exit 9 ;;
   esac
 done
-(cd $S/repo && diff -ru /repo/src src | grep -v "^Only in" | head -${MUT_DIFF_LINES:-30})
+(cd $S/repo && diff -ru $SRC/src src | grep -v "^Only in" | head -${MUT_DIFF_LINES:-30})
 mkdir -p $S/verif
 VERIF_REPO=$S/repo VERIF_BUILD=$S/build VERIF_OUT=$S/verif /verif/check $ID $TIER
 rc=$?
